@@ -1,8 +1,11 @@
 """
 C20 — a request the library cannot honour fails loudly, never silently substituted.
 
-proofs : lean/PyAbel/Props/C20.lean (dispatch model: forward never answered by inverse; raise ⇔ unsupported)
-K      : every request class executed on the real code (abel.Transform and the transform functions), outcome
+proofs : lean/PyAbel/Props/C20.lean (dispatch model: forward never answered by inverse; raise ⇔ unsupported);
+         lean/PyAbel/Props/C07Rbasex.lean (along histories: in the machine of rbasex's transform caches an impossible
+         regularisation raises after every history, and the direction of the request is respected)
+K      : rbasex sessions mixing valid requests with ones that must raise, on the real module vs that machine (outcome
+         and the six cache globals after every call); every request class executed on the real code (abel.Transform and the transform functions), outcome
          classified raise / forward / inverse *independently of the library* by the amplitude ratio on a Gaussian
          (forward multiplies a Gaussian of width s by ~s*sqrt(pi), inverse divides by it) and compared with the model
 S      : the property itself on the same table
@@ -240,6 +243,7 @@ def run(tier):
         ["abel/transform.py", "abel/dasch.py", "abel/onion_bordas.py", "abel/linbasex.py", "abel/daun.py",
          "abel/rbasex.py", "abel/basex.py", "abel/hansenlaw.py", "abel/direct.py"])
     ck.proofs("PyAbel.Props.C20")
+    ck.proofs("PyAbel.Props.C07Rbasex")          # invalid_reg_raises / direction_respected along any history of rbasex requests
     ok, log = ensure_driver()
     reqs = [r for r in table(tier) if admissible_mask(r) and centring_keeps_class(r)]
     replies = drive([model_line(r) for r in reqs]) if ok else [None] * len(reqs)
@@ -342,6 +346,8 @@ def run(tier):
     ck.cov["exhaustive"] = True
     ck.cov["explanation"] = ("the request-class table is finite and enumerated completely (section A-C); section D adds "
                              "seeded random interactions")
+    from harness import rbxmachine
+    rbxmachine.run_sessions(ck, tier)            # requests that raise, interleaved with valid ones: outcome and cache state vs the Lean machine
     return ck.finish()
 
 
